@@ -10,7 +10,8 @@ Model: `PocketModel/Conc/Relay.lean` — an interleaving LTS over the shared evi
 The property — no duplicate proof, never more than the allowance, every relay answered before the
 seal is recorded — is **false for arbitrary schedules** of the code as it is (counterexample
 theorems below, each replayed on the real functions by the harness), except for the allowance
-bound.  It holds when relays and the claim sender run one at a time, and it holds for **all**
+bound, which is proved for every schedule (`within_limit_all_schedules`: the expected
+`over_limit_under_interleaving` does not exist).  It holds when relays and the claim sender run one at a time, and it holds for **all**
 schedules of the repaired design (validate + store under one lock, sealing under the same lock).
 -/
 namespace C34
@@ -66,6 +67,19 @@ theorem exact_under_interleaving_fails :
      .relay 1 .get, .relay 1 .add, .relay 1 .set, .relay 1 .respond]
   revert this
   decide
+
+/-! ### what does hold of the code as it is, for every schedule -/
+
+/-- The allowance bound survives every interleaving: `GetEvidence` seals an evidence that has
+reached the allowance and `Set` refuses to overwrite a sealed one, so neither `NumOfProofs` nor
+the number of stored proofs ever exceeds `max` — for all allowances, requests and step lists. -/
+theorem within_limit_all_schedules (max : Nat) (ids : List P) (sched : List Label) :
+    withinLimit (run (init max ids) sched) = true :=
+  withinLimit_of_inv _ (cinv_run sched _ (cinv_init max ids))
+
+example : withinLimit (run (init 1 [1, 2])
+    [.relay 0 .validate, .relay 1 .validate, .relay 0 .get, .relay 0 .add, .relay 0 .set,
+     .relay 1 .get, .relay 1 .add, .relay 1 .set]) = true := by decide
 
 /-! ### the repaired design: all schedules -/
 
